@@ -56,6 +56,7 @@ impl<A: Ord + Clone> CmRDT for PNCounter<A> {
     type Validation = <GCounter<A> as CmRDT>::Validation;
     closed spec fn cm_inv(&self) -> bool { self.p.cm_inv() && self.n.cm_inv() }
     open spec fn cm_pre(&self, op: &Op<A>) -> bool { true }
+    open spec fn cm_post(old_: &Self, op: &Op<A>, new_: &Self) -> bool { true }
 
 //@extract fn src/pncounter.rs "CmRDT for PNCounter" validate_op
     fn validate_op(&self, op: &Self::Op) -> /*@ (r: @*/ Result<(), Self::Validation> /*@ ) @*/
@@ -86,6 +87,7 @@ impl<A: Ord + Clone> CvRDT for PNCounter<A> {
     type Validation = <GCounter<A> as CvRDT>::Validation;
     closed spec fn cv_inv(&self) -> bool { self.p.cv_inv() && self.n.cv_inv() }
     open spec fn cv_pre(&self, other: &Self) -> bool { true }
+    open spec fn cv_post(old_: &Self, other: &Self, new_: &Self) -> bool { true }
 
 //@extract fn src/pncounter.rs "CvRDT for PNCounter" validate_merge
     fn validate_merge(&self, other: &Self) -> /*@ (r: @*/ Result<(), Self::Validation> /*@ ) @*/
@@ -108,6 +110,7 @@ impl<A: Ord + Clone> CvRDT for PNCounter<A> {
 
 impl<A: Ord> ResetRemove<A> for PNCounter<A> {
     closed spec fn rr_inv(&self) -> bool { self.p.rr_inv() && self.n.rr_inv() }
+    open spec fn rr_post(old_: &Self, clock: &VClock<A>, new_: &Self) -> bool { true }
 
 //@extract fn src/pncounter.rs "ResetRemove for PNCounter" reset_remove
     fn reset_remove(&mut self, clock: &VClock<A>)
